@@ -13,7 +13,8 @@ DevNames == {"DirectMultiAllowed", "OnePuAnyEnc", "ZipOneSided", "RecipientHeade
 ASSUME Dev \subseteq DevNames
 
 Sers == {"compact", "flattened", "general"}
-PClasses == {"empty", "one", "b15", "b16", "b17", "k4", "binary", "compressible"}
+\* incompressible: random octets just below the decompression limit (DEFLATE makes them a little longer, not shorter)
+PClasses == {"empty", "one", "b15", "b16", "b17", "k4", "binary", "compressible", "incompressible", "b4090"}   \* b4090: pads to exactly 4096 under CBC
 
 \* recipient mixes for the general serialization (algorithm per recipient, in the per-recipient header)
 \* one representative algorithm per non-direct key-management family; every ordered pair of families is a mix
